@@ -94,6 +94,15 @@ def make_recipe(rng, tier):
         r.update(anomalies=anoms, means=_mv(rng, len(anoms), p, "mean"),
                  variances=_mv(rng, len(anoms), p, "var"))
         r["means"] = [m.tolist() for m in _expand(r["means"], len(anoms), p)]
+        if len(anoms) >= 2 and rng.random() < 0.5:
+            # the list order is the caller's business: pass the anomalies non-chronologically,
+            # each keeping its own mean and variance
+            perm = rng.permutation(len(anoms)).tolist()
+            r["anomalies"] = [anoms[i] for i in perm]
+            r["means"] = [r["means"][i] for i in perm]
+            if isinstance(r["variances"], list):
+                r["variances"] = [r["variances"][i] for i in perm]
+            r["shuffled"] = True
     elif gen == "alternating":
         r.update(n_segments=int(rng.integers(1, 6)), segment_length=int(rng.integers(1, 15)),
                  mean=float(rng.normal(0, 5).__round__(3)),
@@ -128,6 +137,8 @@ def exec_case(ctx, r):
         ctx.stat("cases[n=1]")
     if seed == 0:
         ctx.stat("cases[seed=0]")
+    if r.get("shuffled"):
+        ctx.stat("cases[anomalies not in chronological order]")
     sub = f"generate-{gen}"
 
     def call(f, *a, **k):
